@@ -922,6 +922,42 @@ pub fn smother_theme() -> BoxedStrategy<String> {
         .boxed()
 }
 
+/// Crowded tactical positions: several queens and rooks a side, pawns one step from promotion
+/// with enemy pieces to capture on the last rank - long move lists full of captures,
+/// capture-promotions and checks (what move ordering has to sort).
+pub fn tactical_crowd() -> BoxedStrategy<String> {
+    (
+        0u8..64,
+        0u8..64,
+        prop::collection::vec(weighted_item([0, 3, 3, 4, 6]), 10..22),
+        prop::collection::vec((0u8..8, any::<bool>()), 1..5),
+        prop::collection::vec((0u8..8, 1u8..5, any::<bool>()), 2..6),
+        any::<bool>(),
+    )
+        .prop_map(|(wk, bk, pieces, pawns, backrank, white_to_move)| {
+            let mut items = Vec::new();
+            for (f, w) in pawns {
+                items.push((if w { 6 * 8 + f } else { 8 + f }, 0u8, w));
+            }
+            for (f, t, on_eighth) in backrank {
+                // enemy pieces on the rank the pawns promote on
+                items.push((if on_eighth { 56 + f } else { f }, t, !on_eighth));
+            }
+            items.extend(pieces);
+            build(&RawPos {
+                wk,
+                bk,
+                items,
+                white_to_move,
+                rights: 0,
+                ep_file: None,
+                half: 0,
+            })
+            .fen()
+        })
+        .boxed()
+}
+
 /// Overwhelming material against a bare king that stands on or near the edge: forced mates in
 /// two to four moves are common (mate scores at several depths inside one search tree).
 pub fn mating_material() -> BoxedStrategy<String> {
